@@ -263,7 +263,7 @@ static void run_raw_case(uint64_t seed, unsigned long icase, const std::string& 
     int nb_lock_fd = -1;
     // ... or a neighbour that has finished an acquisition of its own (its descriptor number is free again) and is
     // then handed one more packet although it is stopped: the packet must be refused, not written anywhere.
-    int nb_kind = (int)vrng_below(&g, 2);
+    int nb_kind = (int)vrng_below(&g, 3); // 2: a neighbour whose first append fails (it writes to /dev/full) and that is closed later
     std::vector<uint8_t> nbuf; std::vector<FrameSpec> nspecs; std::string nb_path;
     auto nb_close = [&]() {
         if (!nb) return;
@@ -289,6 +289,23 @@ static void run_raw_case(uint64_t seed, unsigned long icase, const std::string& 
                 vbuf_printf(&g_log, "| neighbour acquisition of %zu frames ", nspecs.size());
                 if (storage_start(nb) != Device_Ok || !append_in_packets(nb, &g, nbuf, nspecs) || storage_stop(nb) != Device_Ok)
                     violation("C14", "append-failed", "the neighbouring device's own acquisition failed");
+                ++C.neighbours;
+            }
+        }
+        if (cy == nb_cycle && nb_kind == 2) {
+            if ((nb = open_device(BasicDevice_Storage_Raw))) {
+                const char* full = "/dev/full";
+                struct StorageProperties props; memset(&props, 0, sizeof props);
+                struct PixelScale ps = { 1, 1 };
+                storage_properties_init(&props, 0, full, strlen(full) + 1, 0, 0, ps, 0);
+                enum DeviceStatusCode rs = storage_set(nb, &props);
+                storage_properties_destroy(&props);
+                std::vector<uint8_t> fbuf; std::vector<FrameSpec> fspecs;
+                build_frames(&g, fbuf, fspecs, 2, false, 8, 4, SampleType_u8, 0);
+                enum DeviceStatusCode ra = Device_Err;
+                if (rs == Device_Ok && storage_start(nb) == Device_Ok)
+                    ra = storage_append(nb, (const struct VideoFrame*)fbuf.data(), (const struct VideoFrame*)(fbuf.data() + fbuf.size()));
+                vbuf_printf(&g_log, "| neighbour on /dev/full: append -> %s ", ra == Device_Ok ? "ok" : "failed");
                 ++C.neighbours;
             }
         }
